@@ -10,7 +10,7 @@ for d in "$here"/seeded/*/; do
   [ -n "${SEED_RANGE:-}" ] && ! [[ "$name" =~ $SEED_RANGE ]] && continue
   id="${name%%-*}"
   # changes whose fault lies outside what their nominal property observes: the owning check is the one that must catch them
-  case "$name" in C01-C|C02-G|C02-H) id=C15;; C19-G|C19-J|C13-N) id=C14;; C13-J) id=C08;; C05-M) id=C01;; C05-N) id=C16;; C06-M) id=C07;; C07-N) id=C06;; C14-N) id=C17;; esac
+  case "$name" in C01-C|C02-G|C02-H) id=C15;; C02-P) id=C16;; C19-G|C19-J|C13-N|C13-P) id=C14;; C13-J) id=C08;; C05-M) id=C01;; C05-N) id=C16;; C06-M) id=C07;; C07-N) id=C06;; C14-N) id=C17;; esac
   # C13-G violates no listed property (DESIGN 7.2 item 3): recorded, not expected to be caught
   # C18-J delays a hand-built Unknown message that wraps a type-0 (data chunk) frame: on the wire that IS a data chunk, so
   # the statement does not clearly forbid the pause and C18 does not assert its absence (DESIGN 7.4, fifth wave)
@@ -18,7 +18,9 @@ for d in "$here"/seeded/*/; do
   # C02-M only shows if the very first parsing call of the process is a function that does not exist on the unchanged tree
   # (a new public from_log_line): no harness written against the unchanged tree can make that call
   if [ "$name" = "C02-M" ]; then echo "skip $name (needs a call to an API that the unchanged tree does not have)"; continue; fi
-  if [ "$name" = "C13-G" ] || [ "$name" = "C18-J" ] || [ "$name" = "C05-K" ]; then echo "skip $name (violates no listed property as stated)"; continue; fi
+  # C16-Q reads a reply for a hand-built Unknown message whose frame is byte-identical to a Hello / QueryState / RequestOperation:
+  # on the wire that IS such a request, the statement does not clearly forbid the read (same ruling as C18-J)
+  if [ "$name" = "C13-G" ] || [ "$name" = "C18-J" ] || [ "$name" = "C05-K" ] || [ "$name" = "C16-Q" ]; then echo "skip $name (violates no listed property as stated)"; continue; fi
   res=$("$here/tools/try_patch.sh" "$d/patch.diff" "$id" 2>&1 | tail -1)
   n=$((n+1))
   case "$res" in *"CAUGHT BY: $id"*) echo "ok   $name ($id)";; *) echo "MISS $name: $res"; miss=$((miss+1));; esac
